@@ -692,7 +692,10 @@ def replay_c08(d, case):
                 out = dict(np.load(os.path.join(d, 'flat.npz'), allow_pickle=True))
                 out = {k: (v.item() if getattr(v, 'shape', None) == () else v) for k, v in out.items()}
             else:
-                mnd = Mandoline(os.path.join(d, 'plt'), fields=list(fields), limit_level=limit, serial=serial, verbose=0)
+                if case.get('positional'):
+                    mnd = Mandoline(os.path.join(d, 'plt'), list(fields), limit, serial=serial, verbose=0)
+                else:
+                    mnd = Mandoline(os.path.join(d, 'plt'), fields=list(fields), limit_level=limit, serial=serial, verbose=0)
                 if case.get('again'):
                     mnd.slice(fformat='return')
                 out = mnd.slice(fformat='return')
